@@ -202,7 +202,9 @@ claim('C02', 'Lean theorems: whole-path round trip encode_msg -> sentences -> de
       'returns exactly these values; wire_unsigned/_bool/_enum/_tenths/_position/_text give the explicit ranges), '
       'prefix_tables '
       '(kernel-decided on the regenerated tables: the fields in front of the discriminator bits are never normalised), '
-      'C02_encode_dict (encode_dict with `type` or `msg_type` is create followed by encode_msg), C02_create (create '
+      'variants_consistent (for the four multi-layout types the class create() chooses for every assignment of the '
+      'discriminator keywords is the class the decoder chooses for those discriminator bits - kernel-decided on the '
+      'two trees read from the source), C02_encode_dict (encode_dict with `type` or `msg_type` is create followed by encode_msg), C02_create (create '
       'with all fields given builds exactly those values), C02_quantisation_positions/_decode/_tenths (encode rounds '
       'positions to the nearest wire step, at most half a step; decode yields the nearest six-decimal number; tenths '
       'are truncated toward zero, less than one step), C02_position_field / C02_tenths_field (the same laws as '
